@@ -94,6 +94,8 @@ def enc(v, _depth=0):
         return {"$d": [[enc(k, _depth + 1), enc(x, _depth + 1)] for k, x in v.items()]}
     import enum
 
+    if isinstance(v, BaseException):
+        return {"$exc": [tn, v.args[0] if v.args and isinstance(v.args[0], str) else str(v)]}
     if isinstance(v, enum.Enum):
         return {"$en": [t.__name__, v.name]}
     return {"$r": tn}
@@ -108,6 +110,10 @@ def dec(v):
             return {dec(k): dec(x) for k, x in v["$d"]}
         if "$en" in v:
             return SIM.enums[v["$en"][0]][v["$en"][1]]
+        if "$exc" in v:
+            import builtins
+
+            return getattr(builtins, v["$exc"][0])(v["$exc"][1])
         return {k: dec(x) for k, x in v.items()}
     if isinstance(v, list):
         return [dec(x) for x in v]
